@@ -65,7 +65,14 @@ LS2Vecs ==
   \o Cross2(<< 15, 16 >>, << 0, 15, 16 >>, LAMBDA nk, nl : SB("NewLeaseSet2", 7, [ct |-> 4, pairs |-> MapSets[3], off |-> FALSE, tst |-> 7, flags |-> 0, nkeys |-> nk, nleases |-> nl,
                                                                   published |-> T4, expires |-> 600, offexpires |-> T4], 64, << 3 >>, 950 + nk + nl))
   \o SeqMap(LAMBDA f : SB("NewLeaseSet2", 11, [ct |-> 4, pairs |-> MapSets[1], off |-> FALSE, tst |-> 7, flags |-> f, nkeys |-> 1, nleases |-> 16, published |-> T4, expires |-> 65535, offexpires |-> T4], 64, << 3 >>, 900 + f), << 0, 2, 4, 6 >>)
-Vecs == RIVecs \o LSVecs \o OffVecs \o ELSVecs \o ELSOddTransientVecs \o ELSMismatchVecs \o ELSDefectVecs \o LS2Vecs
+\* identities assembled by the caller (struct literals) that DECLARE a key type the structure may not carry (around an Ed25519-format key):
+\* whatever a signing constructor returns for them must still validate and survive the wire, and must not carry a prohibited identity
+DeclVecs ==
+  SeqMap(LAMBDA d : SB("NewLeaseSet2", 7, [ct |-> 4, pairs |-> MapSets[3], off |-> FALSE, tst |-> 7, flags |-> 0, nkeys |-> 1, nleases |-> 1, published |-> T4, expires |-> 600,
+                                            offexpires |-> T4, declst |-> d], 64, << 3 >>, 1000 + d), << 8, 11, 7 >>)
+  \o SeqMap(LAMBDA d : SB("NewLeaseSet", 7, [ct |-> 4, nleases |-> 1, declst |-> d], 64, << >>, 1010 + d), << 8, 11, 7 >>)
+  \o SeqMap(LAMBDA d : SB("NewRouterInfo", 7, [ct |-> 4, pairs |-> MapSets[3], naddr |-> 1, pubsec |-> PadTo(T4, 8), pubneg |-> FALSE, pubns |-> 0, declst |-> d], 64, << >>, 1020 + d), << 8, 11, 7 >>)
+Vecs == DeclVecs \o RIVecs \o LSVecs \o OffVecs \o ELSVecs \o ELSOddTransientVecs \o ELSMismatchVecs \o ELSDefectVecs \o LS2Vecs
 VARIABLE done
 Init == done = FALSE
 Next == ~done /\ ndJsonSerialize(OutFile, Vecs) /\ PrintT(<< "GENERATED", Len(Vecs) >>) /\ done' = TRUE
